@@ -31,6 +31,7 @@ from collections import OrderedDict
 import common
 import impl
 import deck as deckmod
+import c09_corpus
 import c09_gen
 import c09_oracle
 from common import cstr, clist, cbool, copt, cpair, cz, cn
@@ -915,6 +916,54 @@ def witnesses(res):
                       found_input=True)
 
 
+def corpus(res):
+    '''Hand-written decks: every probe point must lie in exactly one volume
+    and that volume must be attached to the expected composition; the
+    COMPOSITION block must hold exactly the expected names (+ m0).'''
+    import t4eval
+    n_ok = 0
+    for name, text, args, probes, comps in c09_corpus.CORPUS:
+        res.seen(('corpus', name), nontrivial=True)
+        res.count('corpus:decks')
+        conv = impl.convert(text, args)
+        if not conv.ok:
+            res.violation('impl-violation',
+                          f'corpus deck {name} rejected: {conv.exc}: '
+                          f'{conv.msg[:200]}', {'input': {'deck': text}},
+                          found_input=True)
+            continue
+        t4 = impl.T4File(conv.text)
+        comp_of = {}
+        for line, vols in t4.geomcomp:
+            for vid in vols:
+                comp_of.setdefault(vid, []).append(line)
+        ev = t4eval.Evaluator(t4, eps=1e-6)
+        good = True
+        for point, want in probes:
+            owners = ev.owners(point)
+            got = [comp_of.get(v) for v in owners]
+            if got != [[want]]:
+                good = False
+                res.violation('impl-violation',
+                              f'corpus deck {name}: point {point} lies in '
+                              f'volume(s) {owners} attached to {got}, expected '
+                              f'{want}', {'input': {'deck': text,
+                                                    'point': list(point)}},
+                              found_input=True)
+        have = {c['name'] for c in t4.compositions} - {'m0'}
+        if have != comps:
+            good = False
+            res.violation('impl-violation',
+                          f'corpus deck {name}: compositions {sorted(have)}, '
+                          f'expected {sorted(comps)}',
+                          {'input': {'deck': text}}, found_input=True)
+        n_ok += good
+    res.obligation(f'corpus ({len(c09_corpus.CORPUS)} hand-written decks: '
+                   'probe points and composition sets)',
+                   n_ok == len(c09_corpus.CORPUS),
+                   f'{n_ok} decks as expected')
+
+
 # ---------------------------------------------------------------------------
 # sweep
 # ---------------------------------------------------------------------------
@@ -992,6 +1041,7 @@ def run(res, tier, seed, proofs_ok):
                 'non-trivial = string longer than one character, dictionary '
                 'with at least one new cell or an error, any deck')
     witnesses(res)
+    corpus(res)
     tie_norm(res, tier, rng)
     sweep_spellings(res, tier, rng)
     tie_material(res, tier, rng)
